@@ -106,17 +106,14 @@ def find_guard(body, targets, fail_rx, exempt_rx=None, extra=None):
     return None, None, '; '.join(reasons) or 'no switch with a predicate of this class'
 
 
-def run(ctx, prog):
-    ctx.not_decided = ['behaviour under injected errno sequences (retry arithmetic, partial-write lengths)',
-                       'bit-level idempotence of normalisation']
-    eff = Effects(prog)
-    eff.define('wal_append', 'WalWriter::append', 'WalWriter::append_batch')
-
+def rejection_classes(ctx, prog, rid, eff):
+    """every rejection class of the index is refused before the log append (C03.R1; shared with C15.R2: an item refused after the
+    append is answered with an error but leaves a compensating Delete that erases the previous version on replay)."""
     # ------------------------------------------------------------------ R1 validate before append
-    ctx.rule('C03.R1', 'every rejection class of HnswVectorIndex::add_vector has a guard of the same class before '
+    ctx.rule(rid, 'every rejection class of HnswVectorIndex::add_vector has a guard of the same class before '
                        'WalWriter::append in HnswBackend::insert (failing edge cannot reach the append; every path to the '
                        'append crosses its passing edge); unclassified rejection exits fail')
-    av = ctx.body('C03.R1', 'HnswVectorIndex::add_vector')
+    av = ctx.body(rid, 'HnswVectorIndex::add_vector')
     o = flow.Origin(av)
     found = {}
     for e in sorted(flow.err_blocks(av)):
@@ -129,16 +126,16 @@ def run(ctx, prog):
                         continue
                     cls = name
         if cls is None:
-            ctx.inst('C03.R1', av.short, 'unclassified rejection exit (%s)' % (ce[2][:80] if ce else 'no controlling guard'), False,
+            ctx.inst(rid, av.short, 'unclassified rejection exit (%s)' % (ce[2][:80] if ce else 'no controlling guard'), False,
                      'add_vector has an Err exit at %s whose guard matches no known rejection class: %s — a new rejection reason '
                      'must get a pre-log check in HnswBackend::insert and a table entry' % (av.loc_of(e), ce[2] if ce else '?'))
         else:
             found[cls] = (e, ce)
-    ctx.floor('C03.R1', 'classified rejection exits of add_vector', len(found), 5, 'DIM, FINITE, FULL, NORM, IDCAST')
-    ins = ctx.body('C03.R1', 'HnswBackend::insert')
+    ctx.floor(rid, 'classified rejection exits of add_vector', len(found), 5, 'DIM, FINITE, FULL, NORM, IDCAST')
+    ins = ctx.body(rid, 'HnswBackend::insert')
     app = eff.blocks(ins, 'wal_append')
     if not app:
-        ctx.missing('C03.R1', 'HnswBackend::insert: WAL append')
+        ctx.missing(rid, 'HnswBackend::insert: WAL append')
         return
     first_app = [min(app)]
     oi = flow.Origin(ins)
@@ -150,24 +147,24 @@ def run(ctx, prog):
             g, p, why = find_guard(ins, first_app,
                                    r'^!cmp\[\+ .*(HnswBackend::dimension\(arg:self\) - (?:Vec|slice)[\w:<>, ]*::len\(arg:embedding\)|len\(arg:embedding\) - HnswBackend::dimension\(arg:self\)) == 0\]$',
                                    exempt_rx=r'^cmp\[\+ HnswBackend::dimension\(arg:self\) == 0\]$')
-            ctx.inst('C03.R1', ins.short, 'class DIM checked before the log', g is not None,
+            ctx.inst(rid, ins.short, 'class DIM checked before the log', g is not None,
                      ('guard %s at %s' % (p, ins.loc_of(g))) if g is not None else 'no pre-append dimension guard: ' + why)
         elif cls == 'FINITE':
             g, p, why = find_guard(ins, first_app, r'^bool\[.*Iterator>::any\((?:slice::iter|.*iter)\(arg:embedding\), closure:.*\)\]$',
                                    extra=lambda p_: util.finite_closure(prog, p_))
             have_finite = g is not None
-            ctx.inst('C03.R1', ins.short, 'class FINITE checked before the log', g is not None,
+            ctx.inst(rid, ins.short, 'class FINITE checked before the log', g is not None,
                      ('guard %s at %s' % (p[:120], ins.loc_of(g))) if g is not None else
                      'HnswBackend::insert appends to the WAL before any non-finite check; the index rejects such a vector '
                      'after the append and the compensating Delete erases the previous version on replay: ' + why)
         elif cls == 'FULL':
             g, p, why = find_guard(ins, first_app, r'^bool\[HnswVectorIndex::is_full\(RwLock::read\(arg:self→HnswBackend\.index\)\)\]$')
-            ctx.inst('C03.R1', ins.short, 'class FULL checked before the log', g is not None,
+            ctx.inst(rid, ins.short, 'class FULL checked before the log', g is not None,
                      ('guard %s at %s' % (p, ins.loc_of(g))) if g is not None else 'no pre-append capacity guard: ' + why)
-            isf = ctx.body('C03.R1', 'HnswVectorIndex::is_full')
+            isf = ctx.body(rid, 'HnswVectorIndex::is_full')
             r = flow.render(flow.Origin(isf).of_local(0))
             agree = bool(re.search(r'current_count Ge .*max_elements', r))
-            ctx.inst('C03.R1', isf.short, 'is_full ≡ the index\'s own capacity refusal', agree, 'is_full returns %s' % r)
+            ctx.inst(rid, isf.short, 'is_full ≡ the index\'s own capacity refusal', agree, 'is_full returns %s' % r)
         elif cls == 'NORM':
             calls = ins.calls_to('hnsw_backend::normalize_in_place_if_needed')
             okc = False
@@ -177,20 +174,33 @@ def run(ctx, prog):
                 dom = first_app[0] not in ins.reach([0], avoid_edges=s_e)
                 if use == 'propagated' and dom:
                     okc = True
-            nz = ctx.body('C03.R1', 'hnsw_backend::normalize_in_place_if_needed')
+            nz = ctx.body(rid, 'hnsw_backend::normalize_in_place_if_needed')
             rets = nz.return_blocks()
             # inside the normaliser: non-finite norm and zero norm are refused on the normalising metrics
             g1, p1, w1 = find_guard_ok(nz, r'^!bool\[f32::is_finite\(simd::sum_squares_f32\(arg:embedding\)\)\]$')
             g2, p2, w2 = find_guard_ok(nz, r'^cmp\[\+ .*EPSILON - simd::sum_squares_f32\(arg:embedding\) >= 0\]$')
-            ctx.inst('C03.R1', ins.short, 'class NORM established before the log', okc and g1 and g2 and have_finite,
+            ctx.inst(rid, ins.short, 'class NORM established before the log', okc and g1 and g2 and have_finite,
                      'normalize_in_place_if_needed propagated and dominating the append: %s; refuses non-finite norm: %s; '
                      'refuses zero norm: %s; FINITE guard present: %s' % (okc, bool(g1), bool(g2), have_finite))
         elif cls == 'IDCAST':
-            ctx.exception('C03.R1', 'IDCAST', 'internal ids are store.embeddings.len() (usize) cast to u64; usize::try_from cannot fail on a 64-bit target')
+            ctx.exception(rid, 'IDCAST', 'internal ids are store.embeddings.len() (usize) cast to u64; usize::try_from cannot fail on a 64-bit target')
             e = oi
             c = ins.calls_to('HnswVectorIndex::add_vector')
             r = flow.render(oi.of_operand(c[0].args[1])) if c else '?'
-            ctx.inst('C03.R1', ins.short, 'class IDCAST vacuous: id is a length', 'Vec' in r and 'len' in r, 'add_vector id argument: %s' % r)
+            ctx.inst(rid, ins.short, 'class IDCAST vacuous: id is a length', 'Vec' in r and 'len' in r, 'add_vector id argument: %s' % r)
+
+
+
+def run(ctx, prog):
+    ctx.not_decided = ['behaviour under injected errno sequences (retry arithmetic, partial-write lengths)',
+                       'bit-level idempotence of normalisation']
+    eff = Effects(prog)
+    eff.define('wal_append', 'WalWriter::append', 'WalWriter::append_batch')
+
+    rejection_classes(ctx, prog, 'C03.R1', eff)
+    ins = ctx.body('C03.R3', 'HnswBackend::insert')
+    app = eff.blocks(ins, 'wal_append')
+    oi = flow.Origin(ins)
 
     # ------------------------------------------------------------------ R2 failed cold write is inert in the engine
     ctx.rule('C03.R2', 'in TieredEngine::insert no path from the Err edge of cold_tier.insert reaches the hot tier or the '
